@@ -1,4 +1,4 @@
-//@unit props=C02,C13 tier=quick rlimit=30
+//@unit props=C10,C09,C02 tier=quick rlimit=30
 //@file src/repr/adjacency_map/mod.rs
 #![feature(allocator_api)]
 use vstd::prelude::*;
@@ -13,8 +13,9 @@ use std::collections::btree_map::Entry;
 use std::alloc::Allocator;
 verus! {
 global size_of usize == 8;
-// std contracts needed by the imported fragments (as in units/map_more.rs)
+// std contracts needed by the imported fragments (as in units/map_ctor.rs, plus matrix_std for matrix_core / matrix_iter)
 //@include prelude/std_contracts.rs
+//@include prelude/matrix_std.rs
 //@include prelude/list_core_std.rs
 //@include prelude/weighted_map_std.rs
 //@include prelude/list_ops_std.rs
@@ -22,13 +23,14 @@ global size_of usize == 8;
 //@include prelude/blanket_std.rs
 //@include prelude/c13left_std.rs
 //@include prelude/wm_more_std.rs
-//@include prelude/map_ctor_std.rs
+// (prelude/map_ctor_std.rs is included inside module map_fv_side: it has an `impl AdjacencyMap` block)
+// the opaque digraph types whose trait contracts are compared against
+//@include prelude/dg.rs
+//@include prelude/dg_ops.rs
+//@include prelude/dg_any.rs
+//@include prelude/dg_johnson.rs
 
-//@import units/inc/map_core.inc.rs
-// `trivial` / `empty` / `From<rows>`: called by the order-1 branch of the generators in map_more.inc.rs
-//@import units/inc/map_ctor_core.inc.rs
-//@import units/inc/map_more.inc.rs
-
-//@include units/inc/seqs_more_m.inc.rs
+//@include units/inc/rep_trait_contracts_tc.inc.rs
+//@include units/inc/rep_trait_contracts_fv.inc.rs
 } // verus!
 fn main() {}
